@@ -126,7 +126,7 @@ func altValue(f *s.Field, r *vh.Rand) *s.V {
 			return s.Bool(false)
 		case "int", "uint":
 			v := int64(r.Range(4, 9))
-			if p, ok := hasTagH(f.Validate, "min"); ok {
+			if p, ok := tagParam(f.Validate, "min"); ok {
 				var m int64
 				fmt.Sscan(p, &m)
 				if m > v {
